@@ -42,7 +42,7 @@ PROPS = {
     'C20': {
         'includes': ['tao/pegtl/contrib/uri.hpp'],
         'tops': [('URI', 'tao::pegtl::uri::URI', 'URI', 1.2, {'quick': 14, 'thorough': 20}),
-                 ('URI_reference', 'tao::pegtl::uri::URI_reference', 'URI-reference', 3.0, {'quick': 14, 'thorough': 20}),
+                 ('URI_reference', 'tao::pegtl::uri::URI_reference', 'URI-reference', 3.0, {'quick': 14, 'thorough': 19}),
                  ('absolute_URI', 'tao::pegtl::uri::absolute_URI', 'absolute-URI', 1.1, {'quick': 14, 'thorough': 20}),
                  # IPv4address derives nothing longer than 15 bytes, IPv6address nothing longer than 45: N = 16 / 46 covers
                  # every string of the RFC language (plus all non-members up to that length)
@@ -431,7 +431,7 @@ class Run:
                 'the ABNF in spec/%s is an exact transcription of the RFC (trusted)%s' % (cfg['abnf'], '; %x5D-10FFFF is written as its UTF-8 encodings per RFC 3629' if self.prop == 'C14' else ''),
                 'the PEGTL combinators behave as specified in lib/peg2smt/pegenc.py (the PEG semantics of doc/Rule-Reference.md; the CBMC engine proves the same specification for the real combinators in C01/C09)',
                 'atom semantics (one/range/ranges/string/any/eof over peek_char, utf8::range via Unicode Table 3-7, integer maximum_rule as maximal digit run with value <= max) are as written in pegenc.py (real atoms are checked against byte-level specs by C10/C15)',
-                'the byte just past the end of the input is not a decimal digit (integer.hpp maximum_rule peeks one byte past the end: defect D3, property C03); the replay runner parses an exactly sized std::string whose terminator is NUL',
+                'the end of the input ends the digit run of integer maximum_rule (the over-read of one byte past the end, defect D3 / property C03, is not modelled; the replay runner parses an exactly sized std::string whose terminator is NUL, so both variants behave alike there)',
                 'Rule::rule_t / Rule::subs_t describe the match() that is actually run (checked: every rule derives from its rule_t)',
                 'input length bound per top rule: %s bytes; longer inputs are outside the claim' % json.dumps(self.Ntop),
                 'default action/control (no actions, normal control): raise = parse_error from must<>',
